@@ -1,4 +1,5 @@
 import DL.Model.Fix
+import DL.Model.FixBuild
 
 /-!
 # C13 — applying a quick fix (text algebra part)
@@ -72,5 +73,47 @@ theorem applyFrom_length (text : List α) : ∀ (cursor : Nat) (cs : List (Chang
 /-! non-vacuity -/
 example : applyFix [1, 2, 3, 4, 5, 6] [⟨1, 2, [9, 9]⟩, ⟨4, 6, []⟩] = [1, 9, 9, 3, 4] := by decide
 example : WF (α := Nat) 6 0 [⟨1, 2, [9, 9]⟩, ⟨4, 6, []⟩] := by simp [WF]
+
+/-! ## builders: the text of `jsx-curly-braces`' attribute fix is one JSX string token denoting the value -/
+open DL.FixBuild in
+theorem untilQuote_append (q : Char) (v rest : List Char) (hv : q ∉ v) :
+    untilQuote q (v ++ q :: rest) = some (v, rest) := by
+  induction v with
+  | nil => simp [untilQuote]
+  | cons c t ih =>
+    have hc : c ≠ q := fun h => hv (by simp [h])
+    have ht : q ∉ t := fun h => hv (List.mem_cons_of_mem _ h)
+    simp [untilQuote, hc, ih ht]
+
+open DL.FixBuild in
+/-- for every attribute value: if a fix is offered, then whatever follows it in the file, the replacement lexes as
+exactly one JSX attribute string whose content is the value (the defect repaired in 27a9c7f: `"a"b"`) -/
+theorem jsxAttrQuote_lexes (v t rest : List Char) (h : jsxAttrQuote v = some t) :
+    lexJsxAttrString (t ++ rest) = some (v, rest) := by
+  unfold jsxAttrQuote at h
+  by_cases h1 : (!v.contains '"') = true
+  · rw [if_pos h1] at h
+    injection h with h; subst h
+    have : '"' ∉ v := by simpa using h1
+    simp only [List.cons_append, List.append_assoc, lexJsxAttrString, true_or, if_true]
+    exact untilQuote_append '"' v rest this
+  · rw [if_neg h1] at h
+    by_cases h2 : (!v.contains '\'') = true
+    · rw [if_pos h2] at h
+      injection h with h; subst h
+      have : '\'' ∉ v := by simpa using h2
+      simp only [List.cons_append, List.append_assoc, lexJsxAttrString, or_true, if_true]
+      exact untilQuote_append '\'' v rest this
+    · rw [if_neg h2] at h; cases h
+
+open DL.FixBuild in
+/-- a fix is withheld only when the value contains both kinds of quote (then no delimiter works) -/
+theorem jsxAttrQuote_none_iff (v : List Char) : jsxAttrQuote v = none ↔ ('"' ∈ v ∧ '\'' ∈ v) := by
+  unfold jsxAttrQuote
+  by_cases h1 : '"' ∈ v <;> by_cases h2 : '\'' ∈ v <;> simp [h1, h2]
+
+open DL.FixBuild in
+example : jsxAttrQuote ['a', '"', 'b'] = some ['\'', 'a', '"', 'b', '\''] ∧
+    lexJsxAttrString (['\'', 'a', '"', 'b', '\''] ++ [' ', '/', '>']) = some (['a', '"', 'b'], [' ', '/', '>']) := by decide
 
 end DL.Props.C13
